@@ -17,7 +17,8 @@ func vC14Ctx(L int) {
 	name := ""
 	var pipe vPipeline
 	usesProbe := false
-	switch vChoice("what", 6) {
+	timed := false
+	switch vChoice("what", 9) {
 	case 0:
 		name, usesProbe = "ThrowOnContextCancel", true
 		pipe = vPipe(ThrowOnContextCancel[int64]()(p), vFlatInt)
@@ -33,9 +34,18 @@ func vC14Ctx(L int) {
 	case 4:
 		name = "Timer"
 		pipe = vPipe(Timer(time.Hour), func(d time.Duration) []int64 { return []int64{int64(d)} })
-	default:
+	case 5:
 		name, usesProbe = "RetryWithConfig", true
 		pipe = vPipe(RetryWithConfig[int64](RetryConfig{MaxRetries: 2})(p), vFlatInt)
+	case 6:
+		name, usesProbe, timed = "BufferWithTimeOrCount", true, true
+		pipe = vPipe(BufferWithTimeOrCount[int64](2, time.Hour)(p), vFlatSlice)
+	case 7:
+		name, usesProbe, timed = "BufferWithTime", true, true
+		pipe = vPipe(BufferWithTime[int64](time.Hour)(p), vFlatSlice)
+	default:
+		name, usesProbe, timed = "SampleTime", true, true
+		pipe = vPipe(SampleTime[int64](time.Hour)(p), vFlatInt)
 	}
 	returned := false
 	vGo(func() {
@@ -55,9 +65,28 @@ func vC14Ctx(L int) {
 	before := len(rec.evs)
 	cancel()
 	vQuiesce()
+	if timed {
+		// C16: time-driven operators fall silent after context cancellation — a source that does
+		// not end by itself on cancellation keeps emitting, two periods pass
+		if p.live > 0 {
+			p.emit(vStep{vkNext, 99})
+		}
+		vAdvance(int64(2 * time.Hour))
+		vQuiesce()
+		nexts := 0
+		for _, e := range rec.evs[before:] {
+			if e.kind == vkNext {
+				nexts++
+			}
+		}
+		// the buffering operators flush what they hold when their ticker ends with the context
+		vAssert(nexts <= 1, name+": values were still delivered long after the subscription context was cancelled")
+	}
 	vCheckGrammar(name, rec)
 	vAssert(rec.terminals() == 1, name+": the output did not terminate when the subscription context was cancelled")
-	vAssert(len(rec.evs) == before+1, name+": something other than the terminal was delivered after the cancellation")
+	if !timed {
+		vAssert(len(rec.evs) == before+1, name+": something other than the terminal was delivered after the cancellation")
+	}
 	if usesProbe {
 		vAssert(p.live == 0, name+": the source is still subscribed after the subscription context was cancelled")
 	}
@@ -115,3 +144,31 @@ func vC09Cancel(L int) {
 
 func vhC09_cancel_L2() { vC09Cancel(2) }
 func vhC09_cancel_L3() { vC09Cancel(3) }
+
+// C02 (context-driven operators with a hidden goroutine): the subscription context is cancelled
+// from another thread while the observer is inside a Next callback; the Error raised by the
+// operator's watcher goroutine must not run at the same time as that callback.
+func vC02Ctx(n int) {
+	ctx, cancel := context.WithCancel(context.Background())
+	p := &vProbe{name: "src"}
+	rec := &vRecorder{name: "x", yield: true, quiet: true}
+	ThrowOnContextCancel[int64]()(p).SubscribeWithContext(ctx, vObs(rec, vFlatInt))
+	vQuiesce()
+	vGo(func() {
+		for i := 0; i < n; i++ {
+			if p.live > 0 {
+				p.emit(vStep{vkNext, int64(i)})
+			}
+		}
+	})
+	vGo(func() { cancel() })
+	vQuiesce()
+	vAssert(!rec.overlap, "ThrowOnContextCancel: callbacks of one observer overlapped (cancellation against a delivery in progress)")
+	vCheckGrammar("ThrowOnContextCancel", rec)
+	vAssert(rec.terminals() == 1, "ThrowOnContextCancel: the output did not terminate when the subscription context was cancelled")
+	vAssert(p.live == 0, "ThrowOnContextCancel: the source is still subscribed after the subscription context was cancelled")
+	vReach("end")
+}
+
+func vhC02_ctx_n1() { vC02Ctx(1) }
+func vhC02_ctx_n2() { vC02Ctx(2) }
